@@ -571,6 +571,11 @@ def lifecycle():
     emit_nat("lingerNoneHasNoDeadline", 1 if re.search(r"None => \{\s*self\.linger_deadline = None;", bs) else 0)
     emit_nat("lingerZeroDeadlineNow", 1 if re.search(r"Some\(d\) if d\.is_zero\(\) => \{\s*self\.linger_deadline = Some\(Instant::now\(\)\);", bs) else 0)
     emit_nat("lingerTimedDeadline", 1 if re.search(r"Some\(d\) => \{\s*self\.linger_deadline = Some\(Instant::now\(\) \+ d\);", bs) else 0)
+    bi = fn_body("core/src/socket/core/shutdown.rs", "initiate_core_shutdown")
+    i1 = bi.find("coordinator.state = ShutdownPhase::Lingering;")
+    i2 = bi.find("coordinator.start_linger_if_needed(")
+    emit_nat("lingerArmedAfterPhaseSet", 1 if 0 <= i1 < i2 else 0)    # start_linger_if_needed returns early in any other phase
+    emit_nat("lingerStartRequiresLingeringPhase", 1 if re.search(r"if self\.state != ShutdownPhase::Lingering \{[^}]*?return;", bs, re.S) else 0)
     cl2 = strip_comments(src("core/src/socket/core/command_loop.rs"))
     mm = re.search(r"maintenance_interval: Interval = interval\(Duration::from_millis\((\d+)\)\)", cl2)
     emit_nat("lingerCheckIntervalMs", int(mm.group(1)) if mm else 0)
